@@ -62,6 +62,24 @@ theorem cyclic_is_error {b : Bytes} {x j k : Nat} (hb : b.length < 2 ^ 63) (h1 :
     (h2 : Safe.NPath b x x (k + 1)) : ∃ e, decodeName b = .error e ∧ e.isNameErr = true :=
   Safe.decodeName_cyclic_error_kind hb h1 h2
 
+/-- the same for ANY decoder state (any buffer, cursor offset and window — e.g. a name inside a record
+of a message): a name whose label/pointer structure from the cursor runs into a cycle is never accepted -/
+theorem cyclic_is_error_anywhere {d : D} {x j k : Nat} (h1 : Safe.NPath d.buf d.off x j)
+    (h2 : Safe.NPath d.buf x x (k + 1)) : ∀ n d', d.name ≠ .ok (n, d') := Safe.name_cyclic_error h1 h2
+
+/-- … positive form: on a well-formed cursor the outcome IS an error, and one of the six documented name
+errors (never a panic, never fuel) -/
+theorem cyclic_is_name_error_anywhere {d : D} {x j k : Nat} (hd : D.Ok d) (h1 : Safe.NPath d.buf d.off x j)
+    (h2 : Safe.NPath d.buf x x (k + 1)) : ∃ e, d.name = .error e ∧ e.isNameErr = true := by
+  rcases name_total hd with ⟨n, d', h, _⟩ | h
+  · exact absurd h (Safe.name_cyclic_error h1 h2 n d')
+  · exact h
+
+/-- a label followed by a pointer back to it, met in the middle of a buffer -/
+example : ∃ e, D.name { buf := [7, 7, 1, 97, 192, 2], off := 2, lim := 6, cost := 0 } = .error e ∧ e.isNameErr = true :=
+  cyclic_is_name_error_anywhere (x := 2) (j := 0) (k := 1) ((D.Ok_iff _).2 (by decide)) .nil
+    (.cons (.label (len := 1) rfl (by decide) (by decide)) (.cons (.ptr (a := 192) (b := 2) rfl (by decide) rfl) .nil))
+
 /-- termination of every entry point (no fuel exhaustion) -/
 theorem decodeDns_terminates {b : Bytes} (h : b.length < 2 ^ 63) : decodeDns b ≠ .error .fuel := Safe.decodeDns_noFuel h
 
